@@ -1,4 +1,5 @@
 import Drv.ExecJson
+import BareModel.StructuredS
 
 /-! Driver for the execution properties (C01 C07 C08 C09): lowering (spec and mirror), jump machine, ticked semantics. -/
 
@@ -32,6 +33,32 @@ def runExec (j : PJson) (P : List Stmt) (structured : Option (List SStmt)) : PJs
     | none => resToJson (execute cfg fuel P none st)
     | some B => resToJson (runT cfg fuel B none st)
 
+/-- structured function table of a structured program (definitions may be nested in global-scope blocks) -/
+partial def collectSFuns : List SStmt → List (Nat × StructuredS.SFuncDef)
+  | [] => []
+  | s :: rest =>
+      (match s with
+       | .func fid n args laa _ b => (fid, { name := n, args := args, lastArgArray := laa, body := b }) :: collectSFuns b
+       | .ite _ t e => collectSFuns t ++ collectSElse e
+       | .while _ b => collectSFuns b
+       | .for _ _ _ b => collectSFuns b
+       | _ => []) ++ collectSFuns rest
+where
+  collectSElse : SElse → List (Nat × StructuredS.SFuncDef)
+    | .none => []
+    | .els b => collectSFuns b
+    | .elif _ t e => collectSFuns t ++ collectSElse e
+
+/-- the plain source-level reading (`execS`, no statement budget, no hidden variables) -/
+def runPure (j : PJson) (B : List SStmt) : PJson :=
+  match globalsOfJson (j.getD "globals") {} with
+  | none => mk [("bad", .str "globals")]
+  | some (g, w) =>
+    let fs := collectSFuns B
+    let scfg : StructuredS.SConfig World := { host := host, sfuns := fun id => (fs.find? (·.1 == id)).map (·.2) }
+    let st : State World := { globals := injectLib g, world := w, count := 0 }
+    resToJson (StructuredS.runS scfg (j.natD "fuel" 3000) B st)
+
 def handleC01 (j : PJson) : PJson :=
   match j.strD "op" with
   | "lower" =>
@@ -51,6 +78,10 @@ def handleC01 (j : PJson) : PJson :=
       match blockOfJson (j.getD "prog") with
       | none => mk [("bad", .str "prog")]
       | some B => runExec j (lowerProgram B) none
+  | "execS" =>
+      match blockOfJson (j.getD "prog") with
+      | none => mk [("bad", .str "prog")]
+      | some B => runPure j B
   | "execT" =>
       match blockOfJson (j.getD "prog") with
       | none => mk [("bad", .str "prog")]
